@@ -32,40 +32,53 @@ theorem intr_drf_generated (pre mid : List Drf.Ev) (ei ej : Drf.Ev)
 theorem skipCond_eq (c f : Int) (e : Bool) : skipCond c f e = skipFrame c f e := by
   simp [skipCond, skipFrame, tryPanicMarker]
 
-/-- run(): the poll is a statement of the loop body itself (not under the `count == 0` profiler test), it comes
-    before the halt test and before the instruction is executed -/
-theorem runLoop_eq : runLoop = ["count", "poll-break", "pc", "halt-break", "exec"] := rfl
+/-! The following ties pin DECISION STRUCTURE (which classified statements occur, in which order, under which guards),
+    not statement text: unrelated statements added to the same functions do not affect them. -/
 
-theorem runWithProfilerLoop_eq : runWithProfilerLoop = ["poll-return", "pc", "halt-break", "exec"] := rfl
+/-- run() and runWithProfiler(): the poll is a top-level statement of the loop body (not under the `count == 0`
+    profiler test), before the halt test, before the instruction is executed (model: `pollStep` first in `exec`) -/
+theorem runOrder_eq : runOrder = ["poll", "halt", "exec"] := rfl
+theorem runWithProfilerOrder_eq : runWithProfilerOrder = ["poll", "halt", "exec"] := rfl
 
-/-- run(): the value is read and the error built between Lock and Unlock, then panic -/
-theorem runRaise_eq : runRaise = ["lock", "err=interruptVal", "other", "unlock", "panic"] := rfl
+/-- run(): Lock, build the error from interruptVal, Unlock, panic — and nothing else touches interruptVal or the flag
+    there (model `raise`; red-team m1 wrote interruptVal in this block) -/
+theorem raiseOrder_eq : raiseOrder = ["lock", "err=interruptVal", "unlock", "panic"] := rfl
 
-theorem bodyInterrupt_eq : bodyInterrupt =
-    ["vm.interruptLock.Lock()", "vm.interruptVal = v", "atomic.StoreUint32(&vm.interrupted, 1)", "vm.interruptLock.Unlock()"] := rfl
+/-- Interrupt(): Lock; interruptVal = v; store 1; Unlock (model `interruptLabels`) -/
+theorem interruptOrder_eq : interruptOrder = ["lock", "val", "store", "unlock"] := rfl
 
-theorem bodyClearInterrupt_eq : bodyClearInterrupt = ["atomic.StoreUint32(&vm.interrupted, 0)"] := rfl
+/-- ClearInterrupt(): one atomic store of 0, no lock, no access to interruptVal (model label `clear`) -/
+theorem clearOrder_eq : clearOrder = ["store0"] := rfl
 
-/-- leaveAbrupt: queue dropped, flag cleared (model `leaveAbrupt`), and the aborted program forgotten (e71ffae) -/
-theorem bodyleaveAbrupt_eq : bodyleaveAbrupt = ["r.jobQueue = nil", "r.ClearInterrupt()", "r.vm.prg = nil", "r.vm.sb = -1"] := rfl
+/-- interruptVal is written by Interrupt only -/
+theorem val_written_by_interrupt_only :
+    ((accessTable.filter (fun a => a.cell == .val && a.write)).map (·.fn)) = ["Interrupt"] := rfl
 
-theorem recoverRunProgram_eq : recoverRunProgram =
-    "if ex := asUncatchableException(x); ex != nil { err = ex if len(vm.callStack) == 0 { r.leaveAbrupt() } } else { panic(x) }" := rfl
+/-- leaveAbrupt(): drops the job queue and clears the flag UNCONDITIONALLY, and takes no parameter on which that could
+    depend (model `leaveAbrupt`; red-team m2 made ClearInterrupt conditional on the error's dynamic type) -/
+theorem leaveAbruptEffects_eq : leaveAbruptEffects = (true, true, 0) := rfl
 
-theorem recoverRunWrapped_eq : recoverRunWrapped = recoverRunProgram := rfl
+/-- leaveAbrupt is called from exactly the four outermost recover sites, each time only if the call stack is empty
+    and the payload is uncatchable (model `apiRecover`: `if st.cs = 0`; red-team m3 dropped the guard in valueString) -/
+theorem leaveAbruptSites_eq : leaveAbruptSites.map (·.1) = ["valueString", "RunProgram", "runWrapped", "Try"] := rfl
 
-/-- Runtime.Try (9e5aa04): an uncatchable passing through at depth 0 runs leaveAbrupt and is re-panicked
-    (model `apiCallJ false` … `apiRecover`) -/
-theorem tryDefer_eq : tryDefer =
-    "defer func() { if x := recover(); x != nil { if len(r.vm.callStack) == 0 && asUncatchableException(x) != nil { r.leaveAbrupt() } panic(x) } }()" := rfl
+theorem leaveAbruptSites_guarded : leaveAbruptSites.all (fun s => s.2.1 && s.2.2.1 && s.2.2.2 == 0) = true := by decide
 
-/-- handleThrow closes open iterators only for catchable payloads (5d979ec): model `execForOf` runs the iterator's
-    return() after a JS exception and not after an uncatchable error -/
-theorem handleThrowRestore_eq : handleThrowRestore = "_ = vm._restoreStacks(tf.iterLen, tf.refLen, ex != nil)" := rfl
+/-- handleThrow closes open iterators exactly for catchable payloads (5d979ec; model `execForOf`) -/
+theorem handleThrowClosesItersIff_eq : handleThrowClosesItersIff = "ex != nil" := rfl
 
 /-- generator.step (e8f901b): on the panic path the try stack is cut to just below the activation's marker frame
     (model `execFrame` with gen = true: `ts := st.ts`) -/
 theorem generatorStepDefer_eq : generatorStepDefer =
     "defer func() { if !completed { if l := int(g.tryStackLen) - 1; l >= 0 && l < len(g.vm.tryStack) { g.vm.tryStack = g.vm.tryStack[:l] } } }()" := rfl
+
+/-- vm.curAsyncRunner is assigned only by the two continuation entry points, and every function that sets it to a runner
+    resets it to nil inside a `defer` (model: `Stmt.asyncResume` resets `car` on every way out) — the m4 class -/
+theorem curAsyncRunner_writers_eq : curAsyncRunnerWriters.map (·.1) = ["onFulfilled", "onRejected"] := rfl
+
+theorem curAsyncRunner_reset_deferred : curAsyncRunnerWriters.all (fun w => !w.2.1 || w.2.2.1) = true := by decide
+
+/-- captureStack appends the awaiting async functions' frames exactly when the VM points at a runner (model: `car`) -/
+theorem captureStackAsyncCond_eq : captureStackAsyncCond = "ctxOffset == 0 && vm.curAsyncRunner != nil" := rfl
 
 end GojaModel.C15.Tie
